@@ -17,7 +17,8 @@ ASSUMPTIONS = cc.ASSUMPTIONS_CORE
 
 
 def extra(tier, rng):
-    return [cc.cancel_case(na, nb, h, we) for na in (1, 2, 3, 4) for nb in (1, 2, 3) for h in (0, 1) for we in (0, 1)]
+    return [cc.cancel_case(na, nb, h, we) for na in (1, 2, 3, 4) for nb in (1, 2, 3) for h in (0, 1) for we in (0, 1)] + \
+        [{"special": "reflush", "n": n, "depth": d} for n in (1, 2, 3) for d in (1, 2, 3)]
 
 
 def plan(tier, seed):
